@@ -170,6 +170,14 @@ func (cat *Catalog) addImage(id, config string, layers []string, subject, subjec
 	ls := []string{}
 	blobs := []string{config}
 	for _, l := range layers {
+		// a layer id prefixed with "u:" gets a descriptor with a urls list (a "foreign" layer);
+		// it is a reference to the blob like any other
+		if id, ok := strings.CutPrefix(l, "u:"); ok {
+			d := cat.descJSON(id, "octet")
+			ls = append(ls, d[:len(d)-1]+`,"urls":["https://example.invalid/layers/`+id+`"]}`)
+			blobs = append(blobs, id)
+			continue
+		}
 		ls = append(ls, cat.descJSON(l, "octet"))
 		blobs = append(blobs, l)
 	}
@@ -268,7 +276,7 @@ func mcCatalog() *Catalog {
 	cat.addImage("img", "b1", nil, "-", "-", "img", "", 0)
 	cat.addIndex("idx", [][2]string{{"img", "image"}}, "-", "-", "idx")
 	cat.addIndex("idy", [][2]string{{"img", "other"}}, "-", "-", "idy")
-	cat.addImage("sub", "b2", nil, "img", "image", "sub", "", 0)
+	cat.addImage("sub", "b2", []string{"u:b1"}, "img", "image", "sub", "", 0)
 	cat.addOpaque("bad", `{"schemaVersion":2,"config":`, false)
 	// large opaque manifests: pushing them takes long enough for concurrent pushes to overlap
 	for _, id := range []string{"big1", "big2", "big3"} {
@@ -333,7 +341,11 @@ func randCatalog(rnd *rand.Rand, nRepos, nTags, nb, nm int, big bool) *Catalog {
 		case k < 11 || len(mans) == 0 && k < 16:
 			var layers []string
 			for j := rnd.Intn(3); j > 0; j-- {
-				layers = append(layers, pick(blobs))
+				l := pick(blobs)
+				if rnd.Intn(3) == 0 {
+					l = "u:" + l
+				}
+				layers = append(layers, l)
 			}
 			pad := 0
 			if big && i == 1 {
